@@ -16,3 +16,36 @@ package finalizers
 //@   nomaprange Write
 //@   ensures shanew.n > old(shanew.n) && shash.n == old(shash.n) + 1 && shash.arg0[old(shash.n)] == sub
 //@   ensures (exists k int :: old(hw.n) <= k && k < hw.n && hw.arg0[k] == shanew.ret0[old(shanew.n)] && hw.arg1[k] == shash.ret0[old(shash.n)])
+
+// C16: the signer switches to a new key store atomically and only after every check passed; a
+// rejected reload leaves the active key, its JWK and the published key set untouched.
+// After a successful (re)load the active JWK and the signing key come from one and the same key
+// store entry, the published set holds the JWK of every entry of the store (in order), and without
+// a configured key id the active entry is the first one (so its JWK is pubKeys[0]).
+// Ghost log jwks = keystore.Entry.JWK calls (arg0 = entry, ret0 = its JWK).
+//@ func (*jwtSigner).load
+//@   props C16
+//@   loop 0 invariant jwks.n == old(jwks.n) + idx + 1 && 0 - 1 <= idx && idx < len(keys) && s.jwk == old(s.jwk) && s.key == old(s.key) && s.pubKeys == old(s.pubKeys)
+//@   loop 0 invariant forall j int :: 0 <= j && j <= idx ==> keys[j] == jwks.ret0[old(jwks.n) + j] && jwks.arg0[old(jwks.n) + j] == entriesOf(ks)[j]
+//@   ensures ret0 != nil ==> s.jwk == old(s.jwk) && s.key == old(s.key) && s.pubKeys == old(s.pubKeys)
+//@   ensures ret0 == nil ==> jwks.n > old(jwks.n) && s.jwk == jwks.ret0[jwks.n - 1] && s.key == jwks.arg0[jwks.n - 1].PrivateKey
+//@   ensures ret0 == nil ==> jwks.n - 1 - old(jwks.n) == len(s.pubKeys) && (forall j int :: 0 <= j && j < len(s.pubKeys) ==> s.pubKeys[j] == jwks.ret0[old(jwks.n) + j])
+//@   ensures ret0 == nil && len(s.keyID) == 0 ==> len(s.pubKeys) > 0 && jwks.arg0[jwks.n - 1] == jwks.arg0[old(jwks.n)]
+
+// the published keys are what the last successful load stored
+//@ func (*jwtSigner).Keys
+//@   props C16
+//@   modifies nothing
+//@   ensures ret0 == s.pubKeys
+
+// C16: a token is signed with the active key under the active JWK's algorithm and names its key id;
+// algorithm, key and key id are read from one state of the signer. The claims handed to the token
+// builder carry sub, iss, iat, nbf and exp = iat + ttl whatever the custom claims contain.
+//@ func (*jwtSigner).Sign
+//@   props C16
+//@   assert at call NewSigner#1: string(callarg0.Algorithm) == old(s.jwk.Algorithm) && callarg0.Key == iface(old(s.key))
+//@   assert at call WithHeader#1: callarg1 == "kid" && callarg2 == iface(old(s.jwk.KeyID))
+//@   assert at call WithHeader#2: callarg1 == "alg" && callarg2 == iface(old(s.jwk.Algorithm))
+//@   assert at call Claims#1: typeIs(callarg1, "map[string]any") && has(unbox(callarg1, "map[string]any"), "sub") && unbox(callarg1, "map[string]any")["sub"] == iface(sub) && unbox(callarg1, "map[string]any")["iss"] == iface(s.iss)
+//@   assert at call Claims#1: tnow.n > old(tnow.n) && unbox(callarg1, "map[string]any")["iat"] == unbox(callarg1, "map[string]any")["nbf"] && typeIs(unbox(callarg1, "map[string]any")["iat"], int64) && unbox(unbox(callarg1, "map[string]any")["iat"], int64) == unixOf(tnow.ret0[tnow.n - 1])
+//@   assert at call Claims#1: typeIs(unbox(callarg1, "map[string]any")["exp"], int64) && (unixnano(tnow.ret0[tnow.n - 1]) + ttl >= 0 ==> unbox(unbox(callarg1, "map[string]any")["exp"], int64) == unixsec(unixnano(tnow.ret0[tnow.n - 1]) + ttl))
